@@ -52,8 +52,12 @@ def scene_xml(c, r, drop=()):
       quat = ' euler="0 90 0"' if t in ("capsule", "cylinder") else ""
       obstacle = f'<geom name="obst" type="{t}" size="{OBST[t]}" pos="{0.3 + 0.013:.4f} {0.2 - 0.021:.4f} {top - ext:.5f}"{quat} condim="{c["condim"]}"/>'
   second = ""
-  if c["second"]:
+  if c["second"] == "far":
     second = '<flexcomp name="g" type="grid" count="3 1 1" spacing="0.1 0.1 0.1" pos="1.3 1.2 0.5" dim="1" mass="0.5" radius="0.01"><edge equality="true"/><pin id="0"/></flexcomp>'
+  elif c["second"] == "cross":
+    # a free rope laid along x over the top layer of the first flex, 4 mm into it, off the vertex lines
+    zc = 0.5 + halfz + 0.015 + 0.01 - 0.004
+    second = f'<flexcomp name="g" type="grid" count="3 1 1" spacing="0.1 0.1 0.1" pos="{0.3 + 0.017:.4f} {0.2 + 0.013:.4f} {zc:.5f}" dim="1" mass="0.5" radius="0.01"><edge equality="true"/></flexcomp>'
   rider = sensors = ""
   if c.get("rider"):
     # a free sphere that never touches the flex, declared last (its geom is the model's last geom): pressed 3 mm into the obstacle plane, or in free fall
@@ -220,8 +224,10 @@ def _chunk(args):
       ca_all, cb_all = contacts_of(mjd), contacts_of(got)
       if "contact" in rec["feeds"] and not ca_all:
         vac.append("contact")
-      if "selfcontact" in rec["feeds"] and not any(x["key"][0] == (-1, -1) for x in ca_all):
+      if "selfcontact" in rec["feeds"] and not any(x["key"][0] == (-1, -1) and x["key"][1][0] == x["key"][1][1] for x in ca_all):
         vac.append("selfcontact")
+      if "flexflex" in rec["feeds"] and not any(x["key"][0] == (-1, -1) and x["key"][1][0] != x["key"][1][1] for x in ca_all):
+        vac.append("flexflex")
 
       def clusters(cs):  # contact points: contacts of the same objects at the same point and distance
         out_ = []
@@ -263,11 +269,15 @@ def _chunk(args):
 
       rope = int(c["dim"]) == 1 and c["obstacle"] not in ("none", "plane")
       kinds = set()
-      is_self = lambda y: y["key"][0] == (-1, -1)
+      is_ff = lambda y: y["key"][0] == (-1, -1) and y["key"][1][0] != y["key"][1][1]  # between two different flexes
+      is_self = lambda y: y["key"][0] == (-1, -1) and not is_ff(y)
       un_self = [y for y in un_w + un_m if is_self(y)]
-      un_geom = [y for y in un_w + un_m if not is_self(y)]
+      un_ff = [y for y in un_w + un_m if is_ff(y)]
+      un_geom = [y for y in un_w + un_m if y["key"][0] != (-1, -1)]
       if un_self:
         kinds.add("self")
+      if un_ff:
+        kinds.add("flexflex")
       if un_geom:
         kinds.add("pinned_vertex_static_geom" if all(static_pair(y) for y in un_geom) else "rope_geom" if rope else "geom")
       if not kinds and attr:
@@ -275,7 +285,7 @@ def _chunk(args):
       if not kinds and mult:
         kinds.add("multiplicity")
       for kind in sorted(kinds):
-        if kind in ("geom", "multiplicity", "attribution") and c["obstacle"] in ("none", "plane"):
+        if kind in ("geom", "multiplicity", "attribution") and c["obstacle"] in ("none", "plane") and c["second"] != "cross":
           kind += "_plane"  # contacts with a plane (and self-contacts) are generated like MuJoCo's: no finding covers them
         cmp.bad.append((f"contacts@{kind}", float("nan"), 0.0))
         cmp.nfields += 1
@@ -318,7 +328,10 @@ def _chunk(args):
       # a contact no dof can move (vertex of an interpolated flex on a pinned node, against a static geom): MuJoCo lists it without rows
       zc = [i for i in range(got.ne, got.nefc) if not rg["J"][i].any()]
       if zc and not any(not rr["J"][i].any() for i in range(mjd.ne, mjd.nefc)):
-        cmp.bad.append(("nefc@zero_jacobian_contact_row", float(len(zc)), 0.0))
+        # ... unless it is a contact between two different flexes (world 0, where efc_id is the contact's index): both sides can move
+        zff = [i for i in zc if w == 0 and 0 <= int(rg["id"][i]) < got.ncon and got.contact.geom[int(rg["id"][i])].max() < 0
+               and got.contact.flex[int(rg["id"][i])][0] != got.contact.flex[int(rg["id"][i])][1]]
+        cmp.bad.append(("nefc@zero_jacobian_flexflex_contact_row" if zff else "nefc@zero_jacobian_contact_row", float(len(zc)), 0.0))
         cmp.nfields += 1
         comparable_dyn = False
       # stage 3b: the rider's sensors (touch, force, torque, contact sensors): the rider touches at most the plane, so whatever the flex's own contacts
@@ -417,7 +430,7 @@ def run(ctx: core.Ctx):
   ctx.extra["models_with_contacts"] = tot["contacts"]
   ctx.extra["stages_fed"] = feeds_seen
   ctx.extra["vacuous_feeds"] = vac
-  if tot["accepted"] < 0.3 * len(cfgs) or tot["dyn"] < 0.1 * len(cfgs):
+  if tot["accepted"] < 0.3 * len(cfgs) or tot["dyn"] < 0.08 * len(cfgs):
     raise RuntimeError(f"vacuous: {tot}")
   for f, nfeed in feeds_seen.items():
     if nfeed >= 8 and vac.get(f, 0) > 0.5 * nfeed:
